@@ -346,33 +346,29 @@ func runC12(c *Ctx) {
 			// C12.3 datacenter
 			if w.dc {
 				dcCut := map[core.Edge]bool{}
-				for _, b := range f.Blocks {
-					for _, in := range b.Instrs {
-						cmp, ok := in.(*ssa.BinOp)
-						if !ok || (cmp.Op != token.EQL && cmp.Op != token.NEQ) {
-							continue
-						}
-						fx, okx := fieldLoadOf(cmp.X, val)
-						fy, oky := fieldLoadOf(cmp.Y, val)
-						if !(okx && fx == "Datacenter") && !(oky && fy == "Datacenter") {
-							continue
-						}
-						// the other side is the server's own configured datacenter
-						other := cmp.Y
-						if oky && fy == "Datacenter" {
-							other = cmp.X
-						}
-						if oa := core.AccessOf(other); oa.LastField() != "Datacenter" || !strings.Contains(strings.Join(oa.Fields, "."), "serverConf") {
-							continue
-						}
-						cte, cfe := core.CondEdges(cmp)
-						eq := cte
-						if cmp.Op == token.NEQ {
-							eq = cfe
-						}
-						for _, x := range eq {
-							dcCut[x] = true
-						}
+				for _, cmp := range core.Comparisons(f, 2) {
+					if cmp.Op != token.EQL && cmp.Op != token.NEQ {
+						continue
+					}
+					fx, okx := fieldLoadOf(cmp.X, val)
+					fy, oky := fieldLoadOf(cmp.Y, val)
+					if !(okx && fx == "Datacenter") && !(oky && fy == "Datacenter") {
+						continue
+					}
+					// the other side is the server's own configured datacenter
+					other := cmp.Y
+					if oky && fy == "Datacenter" {
+						other = cmp.X
+					}
+					if oa := core.AccessOf(other); oa.LastField() != "Datacenter" || !strings.Contains(strings.Join(oa.Fields, "."), "serverConf") {
+						continue
+					}
+					eq := cmp.True
+					if cmp.Op == token.NEQ {
+						eq = cmp.False
+					}
+					for _, x := range eq {
+						dcCut[x] = true
 					}
 				}
 				reachDC := false
